@@ -158,7 +158,9 @@ def run_C04(res, tier, seed, t_end, bad):
         parser_function_level(res, tier, seed)
     if not res.findings:
         import aio
-        aio.run_async_campaign(res, 'C04', aio.plan_async(60), budget(tier, 12, 300), seed + 3, t_end, None, obs)
+        aio.run_async_campaign(res, 'C04', None, 0, seed + 7, t_end, None, obs, plans=aio.async_one_write_scenarios())
+        if not res.findings:
+            aio.run_async_campaign(res, 'C04', aio.plan_async(60), budget(tier, 12, 300), seed + 3, t_end, None, obs)
     if not res.findings:
         matrix_pre(res, 'C04', tier, seed, t_end, [('server-commands', Mx.server_cases, 2000)], obs)
     if not res.findings:
@@ -760,6 +762,13 @@ def run_C11(res, tier, seed, t_end, bad):
     aio.run_async_campaign(res, 'C11', None, 0, seed + 6, t_end, plans=aio.async_tx_scenarios())
     if res.findings:
         return
+    aio.run_async_campaign(res, 'C11', None, 0, seed + 7, t_end, plans=aio.async_one_write_scenarios())
+    if res.findings:
+        return
+    import clientlevel
+    clientlevel.run_cross_thread(res, 'C11')
+    if res.findings:
+        return
     Bl.run_sched_campaign(res, tier, seed, t_end, budget(tier, 40, 1200), 70)
     if not res.findings:
         Bl.real_threads_smoke(res, tier, seed, t_end)
@@ -778,6 +787,9 @@ def run_C14(res, tier, seed, t_end, bad):
     if res.findings:
         return
     aio.run_async_campaign(res, 'C14', None, 0, seed + 6, t_end, plans=aio.async_tx_scenarios())
+    if res.findings:
+        return
+    aio.run_async_campaign(res, 'C14', None, 0, seed + 7, t_end, plans=aio.async_one_write_scenarios())
     if res.findings:
         return
     # (1) blocking pops on the asyncio front-end: served, timed out, pipelined requests behind them
@@ -1049,6 +1061,7 @@ RUNNERS = {
                                                                     OBSERVERS['C03'])),
     'C04': run_C04,
     'C05': generic('C05', pre=lambda res, tier, seed, t_end, bad: (__import__('scenarios').run(res, 'C05', tier, seed, t_end, ()),
+                                                                   None if res.findings else Mx.run_cases(res, 'C05', Mx.db_cases(), tier, seed, t_end, 400, (), None, label='databases'),
                                                                    None if res.findings else __import__('blocking').run_tx_then_block(res, seed),
                                                                    None if res.findings else __import__('aio').run_async_campaign(
                                                                        res, 'C05', __import__('aio').plan_async_tx(60), budget(tier, 15, 300), seed + 5, t_end)),
